@@ -192,7 +192,12 @@ func relSite(fset *token.FileSet, pos token.Pos) string {
 // q is the qualifier+prefix for runtime calls ("verifsimrt.VerifSim"); importLine is added after
 // the package clause of each rewritten file ("" when the runtime lives in the package itself).
 func rewritePackage(pkg *packages.Package, outDir string, replace map[string]string, q string, injectErrors bool) (*Report, error) {
-	helperDone := false
+	return rewritePackageOpt(pkg, outDir, replace, q, injectErrors, true)
+}
+
+// rewritePackageOpt: withHelper=false when the package brings its own runtime (the converter harness).
+func rewritePackageOpt(pkg *packages.Package, outDir string, replace map[string]string, q string, injectErrors, withHelper bool) (*Report, error) {
+	helperDone := !withHelper
 	rep := &Report{Package: pkg.PkgPath}
 	info := pkg.TypesInfo
 	fset := pkg.Fset
@@ -448,5 +453,63 @@ func rewritePackage(pkg *packages.Package, outDir string, replace map[string]str
 		replace[fname] = dst
 	}
 	sort.Strings(rep.FailFuncs)
+	return rep, nil
+}
+
+// RewriteGenerated rewrites the map-range statements of the generated file p_terraform.go inside an
+// assembled converter-simulator module (package ./p of modDir) in place; the runtime functions
+// (VerifSimKeys ...) are supplied by the harness. It returns the rewrite report.
+func RewriteGenerated(modDir string) (*Report, error) {
+	cfg := &packages.Config{
+		Mode: packages.NeedName | packages.NeedFiles | packages.NeedCompiledGoFiles | packages.NeedSyntax |
+			packages.NeedTypes | packages.NeedTypesInfo | packages.NeedImports | packages.NeedDeps,
+		Dir: modDir,
+		Env: pipeline.GoEnv(),
+	}
+	pkgs, err := packages.Load(cfg, "./p")
+	if err != nil {
+		return nil, &pipeline.BuildError{What: "go/packages load of the generated package failed", Out: err.Error()}
+	}
+	if len(pkgs) != 1 || len(pkgs[0].Errors) > 0 {
+		var sb strings.Builder
+		for _, p := range pkgs {
+			for _, e := range p.Errors {
+				sb.WriteString(e.Error() + "\n")
+			}
+		}
+		return nil, &pipeline.BuildError{What: "generated package does not type-check", Out: sb.String()}
+	}
+	pkg := pkgs[0]
+	// restrict the rewrite to the generated file
+	keep := -1
+	for i, f := range pkg.CompiledGoFiles {
+		if filepath.Base(f) == "p_terraform.go" {
+			keep = i
+		}
+	}
+	if keep < 0 {
+		return nil, &pipeline.BuildError{What: "p_terraform.go not found in the generated package"}
+	}
+	pkg.CompiledGoFiles = []string{pkg.CompiledGoFiles[keep]}
+	pkg.Syntax = []*ast.File{pkg.Syntax[keep]}
+	tmp, err := os.MkdirTemp("", "verif-rewrite-")
+	if err != nil {
+		return nil, err
+	}
+	defer os.RemoveAll(tmp)
+	replace := map[string]string{}
+	rep, err := rewritePackageOpt(pkg, tmp, replace, rtPrefix, false, false)
+	if err != nil {
+		return nil, err
+	}
+	for orig, repl := range replace {
+		b, err := os.ReadFile(repl)
+		if err != nil {
+			return nil, err
+		}
+		if err := os.WriteFile(orig, b, 0o644); err != nil {
+			return nil, err
+		}
+	}
 	return rep, nil
 }
